@@ -414,10 +414,11 @@ pub fn check_set_state_mutations(set: &SolutionSet) -> Result<(), InvalidSolutio
     }
 
     // Ensure that no more than one mutation per slot is proposed.
+    // A slot is a contract and key, whichever solutions of the set propose it.
+    let mut mut_keys = HashSet::new();
     for solution in &set.solutions {
-        let mut mut_keys = HashSet::new();
         for mutation in &solution.state_mutations {
-            if !mut_keys.insert(&mutation.key) {
+            if !mut_keys.insert((&solution.predicate_to_solve.contract, &mutation.key)) {
                 return Err(InvalidSetStateMutations::MultipleMutationsForSlot(
                     solution.predicate_to_solve.clone(),
                     mutation.key.clone(),
